@@ -29,6 +29,7 @@ const (
 	lvKC   = "counter va\nva++\ngauge shared\nshared = 1\n"
 	lvOth  = "counter shared\nshared++\n"
 	lvKeys = "counter va by k\nva[\"x\"]++\n"
+	lvKeyC = "counter va by k\nva[\"x\"]++\n# a comment\n"
 )
 
 func lvCompiles(c string) bool { return c != lvBad && c != "" }
